@@ -996,7 +996,7 @@ Proof.
 Qed.
 
 Theorem no_clobber_main : forall i names s0 vs p f,
-  i_force i = false -> i_confirm i = false -> s0 p = Reg f ->
+  i_force i = false -> confirm i = false -> s0 p = Reg f ->
   (~ In p names \/ eff_rm i names = false) ->
   all_pref (fun s h => s p = Reg f /\ unlinked h s p = Reg f) (fio_main i names s0 vs) s0 None.
 Proof.
@@ -1050,7 +1050,7 @@ Proof.
 Qed.
 
 Theorem no_clobber_thm : forall i ls s0 vs p f,
-  i_force i = false -> i_confirm i = false -> s0 p = Reg f ->
+  i_force i = false -> confirm i = false -> s0 p = Reg f ->
   (~ In p (eff_srcs i ls s0) \/ eff_rm i (eff_srcs i ls s0) = false) ->
   all_pref (fun s h => s p = Reg f /\ unlinked h s p = Reg f) (fio_ops i ls s0 vs) s0 None.
 Proof.
@@ -2026,7 +2026,7 @@ Definition no_ls : path -> list path := fun _ => [].
 Definition ok_verdict (chunks : list data) : verdict :=
   mkVerdict chunks Ret0 [] None true true true true true true true.
 
-Definition ex_inv : inv := mkInv Compress [[97]] OutDefault false [true] false false false None None.       (* zstd --rm a *)
+Definition ex_inv : inv := mkInv Compress [[97]] OutDefault false [true] None false false None None.       (* zstd --rm a *)
 Definition ex_fs : fs := upd (fun _ => Absent) [97] (Reg (mkFile [1] true)).
 Definition ex_vs : path -> verdict := fun _ => ok_verdict [[2]].
 
@@ -2064,7 +2064,7 @@ Proof. vm_compute. reflexivity. Qed.
 
 (* zstd -f a, where a.zst is a symbolic link to the regular file p: the link is replaced, p is not written *)
 Example ex_link_dst :
-  fio_ops (mkInv Compress [[97]] OutDefault true [] false false false None None) no_ls
+  fio_ops (mkInv Compress [[97]] OutDefault true [] None false false None None) no_ls
           (upd (upd ex_fs [97; 46; 122; 115; 116] (Lnk [112])) [112] (Reg (mkFile [9] true))) ex_vs =
   [OOpenRead [97]; OUnlinkDst [97; 46; 122; 115; 116]; OCreat [97; 46; 122; 115; 116] true; OReg [97; 46; 122; 115; 116];
    OWrite [97; 46; 122; 115; 116] [2]; OClr; OSetStat [97; 46; 122; 115; 116];
